@@ -145,6 +145,13 @@ func runC03(w *eng.W) {
 		do("cyclic", "$l = this, $l."+"$l"+" === null ? 1 : "+v.Expr, "zoo")
 		do("cyclic", "$l = this, toString("+v.Expr+") + toString($l)", "zoo")
 		do("cyclic", "$l = [this], '' + $l + "+v.Expr, "zoo")
+		// !. and . applied to every kind of operand node (the failed assertion names its operand)
+		for _, form := range []string{"(%s ?? %s)", "(%s || %s)", "(%s && %s)", "(%s ? %s : %s)", "[%s]", "(-%s)", "(!%s)", "(typeof %s)", "(%s + %s)", "(%s, %s)", "($l = %s)", "len(%s)", "(%s == %s)", "((%s))", "(%s).k", "(%s)!.k", "(%s ?? n)", "(n || %s)"} {
+			e := strings.Replace(form, "%s", v.Expr, -1)
+			do("assert-compound", e+"!.k", "zoo")
+			do("assert-compound", e+".k!.q", "zoo")
+			do("assert-compound", "["+e+"!.k, 1]", "zoo")
+		}
 		do("assign", "$l = "+v.Expr, "zoo")
 		do("assign", "($l = "+v.Expr+"), $l", "zoo")
 		do("array", "["+v.Expr+", "+v.Expr+"]", "zoo")
